@@ -252,7 +252,7 @@ pub fn c08(a: &Args, rep: &mut Report) {
     rep.rule = "cases = seeded 1D and 2D inputs of the conditioned families (periodic or not, one quarter with masks); each is rebuilt 3 times with garbage (0, -0, +-1e300, subnormals, box-violating values) in every unused coordinate of generators, anchor and width and compared bitwise; 1D against the sorted-midpoint closed form; 2D against the 3D build in a unit slab; distinct = distinct input hash; non-trivial = at least 2 generators".into();
     rep.assumptions = vec!["1D closed form computed in the harness".into(), "the 3D slab build is judged by C01; a panic of that degenerate 3D build is counted as inconclusive here".into()];
     let szs = sizes(a);
-    let n = ncases(a, 1200, 40000);
+    let n = ncases(a, 2500, 60000);
     run_parallel(rep, n, budget(a, 100., 900.), |k, rep| {
         let o = GenOpts {
             sizes: &szs,
@@ -520,7 +520,7 @@ pub fn c06(a: &Args, rep: &mut Report) {
     rep.assumptions = vec!["the 3^d block is sufficient for the infinite replication: any image with |delta_k| > w_k is dominated by a nearer image of the same generator".into(), "tolerance model of DESIGN 5.3".into()];
     let thorough = a.tier == "thorough";
     let szs: Vec<usize> = if thorough { vec![1, 2, 3, 4, 5, 8, 13, 27, 50, 100, 200, 400] } else { vec![1, 2, 3, 4, 5, 8, 13, 27, 50, 100] };
-    let n = ncases(a, 300, 8000);
+    let n = ncases(a, 1500, 20000);
     run_parallel(rep, n, budget(a, 100., 1200.), |k, rep| {
         let o = GenOpts {
             sizes: &szs,
